@@ -394,7 +394,7 @@ def run(ck):
         c["shape"] = "corpus"
         cases.append(c)
     ncorpus = len(cases)
-    for i in range(ck.n(200, 2500)):
+    for i in range(int(os.environ.get("C19_N", 0)) or ck.n(200, 2500)):      # C19_N: smaller runs for experiments
         cases.append(gen_case(rng, env, big=(i % 10 == 0)))
     nrandom = len(cases) - ncorpus
     exhaustive = False
